@@ -125,12 +125,12 @@ def gen_cases(tier, rnd):
             r = make_run(l, b, m, setup, 3 if timed else None, 'rel', [], ['a'], outcome, 0, 0, 0)
             cases.append(dict(kind='single', init=init0, runs=[r]))
     # 2. program behaviours and irrelevant options, single run
-    for _ in range(400 if thorough else 60):
+    for _ in range(1500 if thorough else 60):
         init = dict(init0, argv=rnd.choice([['driver'], ['driver', 'x', 'y'], ['']]),
                     profile=rnd.choice(['undecided', 'undecided', 'disabled']))
         cases.append(dict(kind='single-random', init=init, runs=[random_run(rnd)]))
     # 3. sequences of 2 and 3 runs
-    for _ in range(1500 if thorough else 120):
+    for _ in range(6000 if thorough else 120):
         n = rnd.choice([2, 2, 3])
         init = dict(init0, profile=rnd.choice(['undecided', 'undecided', 'disabled']))
         cases.append(dict(kind='sequence', init=init, runs=[random_run(rnd) for _ in range(n)]))
